@@ -74,4 +74,25 @@ impl exmex::MakeOperators<i32> for DummyOps {
     fn make<'a>() -> Vec<exmex::Operator<'a, i32>> { vec![] }
 }
 
-registry!("c04", arity_eval, arity_eval_relaxed, arity_eval_vec_1, arity_eval_vec_2, arity_eval_vec_3, arity_eval_iter_1, arity_eval_iter_2, arity_eval_iter_3);
+/// native-only sampled probe: `find_parsed_vars` / `find_var_index` on random token lists over a palette of
+/// tricky names: the result lists the distinct names in Rust string order, and every name is found at
+/// its position
+pub fn var_lookup_probe<S: Src>(s: &mut S) {
+    const NAMES: [&str; 12] = ["a", "b", "B", "a1", "_a", "α", "ab", " a", "x y", "👍+👎", "Z", "aa"];
+    let n = s.choice(10) as usize;
+    let mut toks: Vec<ParsedToken<'static, i32>> = vec![];
+    let mut used: Vec<&'static str> = vec![];
+    for _ in 0..n {
+        if s.choice(4) == 0 { toks.push(ParsedToken::Num(1)); } else { let nm = NAMES[s.choice(12) as usize]; toks.push(ParsedToken::Var(nm)); used.push(nm); }
+    }
+    let vars = find_parsed_vars(&toks);
+    let mut expect: Vec<&str> = used.clone();
+    expect.sort();
+    expect.dedup();
+    assert!(vars.len() == expect.len() && vars.iter().zip(expect.iter()).all(|(a, b)| a == b), "C04 the variables are the distinct names in Rust string order");
+    for (i, nm) in expect.iter().enumerate() {
+        assert!(find_var_index(nm, &vars) == i, "C04 a name is looked up at its position in the sorted list");
+    }
+}
+
+registry!("c04", var_lookup_probe, arity_eval, arity_eval_relaxed, arity_eval_vec_1, arity_eval_vec_2, arity_eval_vec_3, arity_eval_iter_1, arity_eval_iter_2, arity_eval_iter_3);
